@@ -9,8 +9,14 @@ one per parameter kind of spec/Priors.tla (ParamKinds):
    pg2l  declared log,    switched by set_mode(.., 'linear')
    idle  declared linear, never fitted (sits between the others in the parameter table)
 
-Every setter records what it is handed: `received[name]` is what reaches the model.  The observation is a
-minimal BaseSpectrum.  Nothing here decides anything: the module builds objects and records calls.
+Every setter records what it is handed: `received[name]` is what reaches the model.  Nothing here decides
+anything: the module builds objects and records calls.
+
+Owners (spec/Priors.tla: Owners): a fitted parameter may live on the observation as well.  RecordingObservation is a
+real BaseSpectrum subclass that declares the same five kinds of parameters with @fitparam (olin, olog, ol2g, og2l,
+oidle -- like the offset / scale parameters of observation plugins) and records what its setters are handed.
+`fresh_owners()` gives an optimizer over a RecordingModel and a RecordingObservation; PARAM[(owner, kind)] names the
+parameter.  FlatObservation (no fitting parameters at all) stays the observation of `fresh()`.
 """
 import os
 import tempfile
@@ -19,7 +25,10 @@ import numpy as np
 
 KIND_PARAM = {'lin': 'plin', 'log': 'plog', 'lin2log': 'pl2g', 'log2lin': 'pg2l'}
 DECLARED = {'plin': 'linear', 'plog': 'log', 'pl2g': 'linear', 'pg2l': 'log', 'idle': 'linear'}
-SWITCH = {'pl2g': 'log', 'pg2l': 'linear'}
+SWITCH = {'pl2g': 'log', 'pg2l': 'linear', 'ol2g': 'log', 'og2l': 'linear'}
+OBS_KIND_PARAM = {'lin': 'olin', 'log': 'olog', 'lin2log': 'ol2g', 'log2lin': 'og2l'}
+PARAM = dict([(('model', k), v) for k, v in KIND_PARAM.items()] + [(('observation', k), v) for k, v in OBS_KIND_PARAM.items()])
+DECLARED.update({'olin': 'linear', 'olog': 'log', 'ol2g': 'linear', 'og2l': 'log', 'oidle': 'linear'})
 
 _CLASSES = {}
 
@@ -112,7 +121,63 @@ def _classes():
         def errorBar(self):
             return np.full_like(self._x, 0.1)
 
-    _CLASSES.update(model=RecordingModel, obs=FlatObservation)
+    class RecordingObservation(FlatObservation):
+        """An observed spectrum with fitting parameters of its own (declared like any Fittable's)."""
+
+        def __init__(self):
+            super().__init__()
+            self.values = {'olin': 3.0, 'olog': 1e-2, 'ol2g': 5.0, 'og2l': 1e-1, 'oidle': 0.5}
+            self.received = {k: [] for k in self.values}
+
+        def _set(self, name, value):
+            self.values[name] = value
+            self.received[name].append(value)
+
+        @property
+        def spectrum(self):
+            return np.ones_like(self._x) + self.values['oidle'] * 0.0
+
+        @fitparam(param_name='olin', param_latex='olin', default_mode='linear', default_fit=False, default_bounds=[0.5, 20.0])
+        def olin(self):
+            return self.values['olin']
+
+        @olin.setter
+        def olin(self, value):
+            self._set('olin', value)
+
+        @fitparam(param_name='oidle', param_latex='oidle', default_mode='linear', default_fit=False, default_bounds=[0.0, 1.0])
+        def oidle(self):
+            return self.values['oidle']
+
+        @oidle.setter
+        def oidle(self, value):
+            self._set('oidle', value)
+
+        @fitparam(param_name='olog', param_latex='olog', default_mode='log', default_fit=False, default_bounds=[1e-6, 1e2])
+        def olog(self):
+            return self.values['olog']
+
+        @olog.setter
+        def olog(self, value):
+            self._set('olog', value)
+
+        @fitparam(param_name='ol2g', param_latex='ol2g', default_mode='linear', default_fit=False, default_bounds=[0.2, 30.0])
+        def ol2g(self):
+            return self.values['ol2g']
+
+        @ol2g.setter
+        def ol2g(self, value):
+            self._set('ol2g', value)
+
+        @fitparam(param_name='og2l', param_latex='og2l', default_mode='log', default_fit=False, default_bounds=[1e-3, 10.0])
+        def og2l(self):
+            return self.values['og2l']
+
+        @og2l.setter
+        def og2l(self, value):
+            self._set('og2l', value)
+
+    _CLASSES.update(model=RecordingModel, obs=FlatObservation, recobs=RecordingObservation)
     return _CLASSES
 
 
@@ -124,6 +189,16 @@ def fresh():
     c = _classes()
     m = c['model']()
     return Optimizer('c08', observed=c['obs'](), model=m), m
+
+
+def fresh_owners():
+    """(optimizer, {'model': RecordingModel, 'observation': RecordingObservation}); nothing fitted yet."""
+    import logging
+    from taurex.optimizer import Optimizer
+    logging.disable(logging.CRITICAL)
+    c = _classes()
+    owners = {'model': c['model'](), 'observation': c['recobs']()}
+    return Optimizer('c08', observed=owners['observation'], model=owners['model']), owners
 
 
 def setup_by_calls(opt, items):
